@@ -727,7 +727,7 @@ def try_save(obj, target, fmt, ow):
         # the traceback keeps the writer's frame (and its h5py file) alive: drop it now, so that the
         # h5py file is released while the caller's file object is still open
         ex = ex.with_traceback(None)
-        if isinstance(ex, ValueError) and 'already exists' in str(ex):
+        if isinstance(ex, ValueError) and 'File already exists' in str(ex):
             return 'Refused', ex
         gc.collect()
         return 'Raises', ex
@@ -1335,9 +1335,9 @@ RDMS_SCRIPTS = {
     'permute-inverse': [_ev('permute', 1, vals=[4, 3, 2, 1]), _ev('inverse_permute', 2), _ev('drop', 1)],
     'subsample-append': [_ev('subset', 1, by='subj', vals=[1]), _ev('subset', 1, by='subj', vals=[3]),
                          _ev('append', 2, 3)],
-    'partials-of-subsets': [_ev('subset_pattern', 1, by='cond', vals=[1, 2, 3]),
-                            _ev('subset_pattern', 1, by='cond', vals=[2, 3, 4]), _ev('drop', 1),
-                            _ev('from_partials', 2, 3)],
+    'partials-of-subsets': [_ev('subset_pattern', 1, by='cond', vals=[1, 2, 3]), _ev('getitem', 2, vals=[1]),
+                            _ev('drop', 2), _ev('subset_pattern', 1, by='cond', vals=[2, 3, 4]), _ev('drop', 1),
+                            _ev('from_partials', 3, 2)],
     'sort-subsample_pattern': [_ev('sort_alpha', 1, by='cat'), _ev('subsample_pattern', 1, by='cond', vals=[3, 3, 1])],
 }
 
